@@ -65,6 +65,11 @@ def shard(mon, tier, rng, shard_no, nshards):
     for it in range(n):
         variant = VARS[(it + shard_no) % len(VARS)]
         case, order = make(rng, variant)
+        if tier == "thorough" and it % 20 == 7 and runs.VARIANTS[variant]["algo"] in ("VOGP", "EpsilonPAL", "PaVeBaGP", "PaVeBaPartialGP"):
+            case["model"] = "real"  # the real GP wrapper, trained by the real factory helper on the K designs
+            case["noise_var"] = 1e-4 * case["scale"] ** 2
+            case["max_rounds"] = 40
+            mon.count("real_model_runs")
         tr = runs.run_case(case, order, mon, max_extra_steps=0)
         mon.count("runs")
         if tr.ctor_crash:
